@@ -416,6 +416,7 @@ func init() {
 			{Name: "orders", Shards: func(string) int { return 16 }, Run: runOrders, Replay: replayOrders},
 			{Name: "purity", Run: runPurity},
 			{Name: "unchanged-package", Shards: func(string) int { return 8 }, Run: runSystem, Replay: replaySystem},
+			{Name: "environment-isolation", Shards: func(string) int { return 2 }, Run: runEnvPkg, Replay: replayEnvPkg},
 		},
 	})
 }
